@@ -224,29 +224,44 @@ def run_bfs(harness, monitors, prop, opts):
     max_depth = opts.get('max_depth', 99)
     max_states = opts.get('max_states', 10 ** 9)
     deadline = t0 + opts.get('time_cap', 10 ** 9)
-    init = list(dict.fromkeys(harness.initial_states()))
+    # initial states are put into the serialiser's canonical form (standard library only), so that
+    # "the result differs from the input state" is meaningful from depth 0 on
+    init = list(dict.fromkeys(canonical(t) for t in harness.initial_states()))
     seen = set(init)
     parents = {}
     frontier = init
     total = Result()
-    info = {'initial_states': len(init), 'levels': [], 'caps_hit': [], 'fixpoint': False}
+    info = {'initial_states': len(init), 'levels': [], 'caps_hit': [], 'bounds': [], 'fixpoint': False}
+    expanded = 0
     ctx = mp.get_context('fork')
     depth = 0
     with ctx.Pool(NWORKERS, initializer=_worker_init, initargs=(harness, monitors, prop, opts)) as pool:
         while frontier:
             if depth > max_depth:
-                info['caps_hit'].append(f'max_depth={max_depth} (frontier of {len(frontier)} states not expanded)')
+                info['bounds'].append(f'max_depth={max_depth}: {len(frontier)} states at depth {depth} were reached but not expanded')
                 break
             nchunks = max(1, min(len(frontier), NWORKERS * 8))
             size = (len(frontier) + nchunks - 1) // nchunks
             chunks = [frontier[i:i + size] for i in range(0, len(frontier), size)]
             level = Result()
             timed_out = False
+            done = 0
             for r in pool.imap(process_states, chunks):
                 level.merge(r)
-                if time.time() > deadline:
+                done += 1
+                if time.time() > deadline and done < len(chunks):
                     timed_out = True
+                    break
             total.merge(level)
+            expanded += level.states
+            if timed_out:
+                pool.terminate()
+                info['caps_hit'].append(f'time_cap={opts.get("time_cap")}s hit at depth {depth}: '
+                                        f'{done} of {len(chunks)} chunks of this level explored; deeper levels not explored')
+                info['levels'].append({'depth': depth, 'states': len(frontier), 'transitions': level.transitions,
+                                       'new_states': None, 'partial': True})
+                depth += 1
+                break
             total.successors = {}
             nxt = []
             for t, p in level.successors.items():
@@ -262,16 +277,23 @@ def run_bfs(harness, monitors, prop, opts):
                                    'new_states': len(nxt)})
             frontier = nxt
             depth += 1
-            if timed_out and frontier:
-                info['caps_hit'].append(f'time_cap={opts.get("time_cap")}s (frontier of {len(frontier)} states not expanded)')
+            if frontier and time.time() > deadline:
+                info['caps_hit'].append(f'time_cap={opts.get("time_cap")}s hit after depth {depth - 1} '
+                                        f'(frontier of {len(frontier)} states not expanded)')
                 break
         else:
             info['fixpoint'] = True
-    info['states'] = len(seen)
+    info['states'] = expanded          # states whose whole menu was executed
+    info['states_seen'] = len(seen)    # including reached-but-unexpanded frontier states
     info['depth_completed'] = depth - 1
     info['wall_s'] = time.time() - t0
     info['parents'] = parents
     return total, info
+
+
+def canonical(text):
+    import xml.etree.ElementTree as ET
+    return ET.tostring(ET.fromstring(text), encoding='unicode')
 
 
 def history_of(parents, text):
